@@ -137,11 +137,11 @@ class BGPLS(NLRI):
                 descriptor['type'] = 'link_remote_ipv4'
                 descriptor['value'] = ipv4_neighbor_addr
             elif _type == 261:  # ipv6 interface address
-                ipv6_inter_addr = str(netaddr.IPAddress(int(binascii.b2a_hex(value), 16)))
+                ipv6_inter_addr = str(netaddr.IPAddress(int(binascii.b2a_hex(value), 16), 6))
                 descriptor['type'] = 'link_local_ipv6'
                 descriptor['value'] = ipv6_inter_addr
             elif _type == 262:  # ipv6 neighbor address
-                ipv6_neighbor_addr = str(netaddr.IPAddress(int(binascii.b2a_hex(value), 16)))
+                ipv6_neighbor_addr = str(netaddr.IPAddress(int(binascii.b2a_hex(value), 16), 6))
                 descriptor['type'] = 'link_remote_ipv6'
                 descriptor['value'] = ipv6_neighbor_addr
             elif _type == 263:  # Multi-Topology Identifier
@@ -163,7 +163,7 @@ class BGPLS(NLRI):
                     prefix_bit = value[1:]
                     for i in range(0, (128 - mask) // 8):
                         prefix_bit += b'\x00'
-                    ip_str = str(netaddr.IPAddress(int(binascii.b2a_hex(prefix_bit), 16)))
+                    ip_str = str(netaddr.IPAddress(int(binascii.b2a_hex(prefix_bit), 16), 6))
                 descriptor['value'] = "%s/%s" % (ip_str, mask)
             elif _type == 518:  # SRv6 SID Information
                 # Refer: https://datatracker.ietf.org/doc/html/draft-ietf-idr-bgpls-srv6-ext-14#section-6.1
@@ -175,7 +175,7 @@ class BGPLS(NLRI):
 
                 # This field MUST contain a single SRv6 SID Information TLV (Section 6.1) and
                 # MAY contain the Multi-Topology Identifier TLV [RFC7752].
-                descriptor['value'] = str(netaddr.IPAddress(int(binascii.b2a_hex(value), 16)))
+                descriptor['value'] = str(netaddr.IPAddress(int(binascii.b2a_hex(value), 16), 6))
             else:
                 descriptor['type'] = _type
                 descriptor['value'] = binascii.b2a_hex(value)
